@@ -99,6 +99,11 @@ public:
   // it) is interrupted once (EINTR), as by a signal the caller handles.
   int64_t intr_poll_at = -1;
   int64_t intr_fired_at = -1;
+  // A clock that moves while the library computes: every reading costs `tick`
+  // ms of virtual time (0: time passes inside waits only, which is what the
+  // exact-duration oracles need). With a tick only bounds can be checked.
+  int64_t tick = 0;
+  uint64_t clock_reads = 0;
 
   static World *&current()
   {
@@ -365,7 +370,10 @@ private:
 
   static int h_clock(int64_t *ms)
   {
-    *ms = current()->now;
+    World *w = current();
+    *ms = w->now;
+    w->clock_reads++;
+    if (w->tick > 0) w->advance_to(w->now + w->tick);
     return 1;
   }
   static int64_t h_now() { return current()->now; }
